@@ -195,6 +195,14 @@ func (s *Sim) runShadows(p *Pkt) *shadowResult {
 		res.V["nomw"] = s.runVariant("nomw", nil, true, s.recvCB(s.stackNoOrbiter(), pkt, rel))
 		res.V["mwonly"] = s.runVariant("mwonly", nil, true, s.recvCB(s.stackOrbiterOnly(), pkt, rel))
 		res.V["bare"] = s.runVariant("bare", nil, true, s.recvCB(s.stackBare(), pkt, rel))
+		// any valid ICS-24 identifier may name the counterparty's end of a channel (shadow only: IBC core is bypassed)
+		alt := pkt
+		alts := []string{"channel-noble-usdc", "solomachine-channel.0", "ch4nnel_77", "channel-18446744073709551615", "abcdefgh", strings.Repeat("c", 64), "07-tendermint-0.chan"}
+		alt.SourceChannel = alts[int(p.Seq)%len(alts)]
+		res.V["mwonly-altsrc"] = s.runVariant("mwonly-altsrc", nil, true, s.recvCB(s.stackOrbiterOnly(), alt, rel))
+		res.V["bare-altsrc"] = s.runVariant("bare-altsrc", nil, true, s.recvCB(s.stackBare(), alt, rel))
+		s.Stats.Count("shadow_executions")
+		s.Stats.Count("shadow_executions")
 		s.Stats.Count("shadow_executions")
 		s.Stats.Count("shadow_executions")
 		s.Stats.Count("shadow_executions")
@@ -457,7 +465,14 @@ func (s *Sim) checkShadow(m *txMeta, p *Pkt, in *PktInfo, mo *MsgObs, ack AckInf
 			s.violate("C07", "orbiter-state-untouched", "orbiter-store-changed", fmt.Sprintf("packet op=%d", p.Origin))
 		}
 		// the same relation at the level of the middleware itself: orbiter(transfer) vs transfer alone
-		if mw, bare := sh.V["mwonly"], sh.V["bare"]; mw != nil && bare != nil {
+		for _, pair := range [][2]string{{"mwonly", "bare"}, {"mwonly-altsrc", "bare-altsrc"}} {
+			mw, bare := sh.V[pair[0]], sh.V[pair[1]]
+			if mw == nil || bare == nil {
+				continue
+			}
+			if pair[0] == "mwonly-altsrc" {
+				cls += " src-channel=non-channel-N"
+			}
 			s.Stats.Count("rule:C07.differential-middleware-level")
 			if string(mw.Ack) != string(bare.Ack) || mw.Panic != bare.Panic {
 				s.violate("C07", "same-as-wrapped-application-alone", "ack-differs class="+cls, fmt.Sprintf("packet op=%d data=%.200q: orbiter(transfer) %.200s / transfer alone %.200s", p.Origin, string(p.Data), mw.Ack, bare.Ack))
